@@ -175,7 +175,7 @@ class UserFn(object):
 class SimPool(Executor):
     """FIFO pool of n controlled worker threads satisfying the delegate contract DC."""
 
-    def __init__(self, workers=1, name="pool", future_class=SimFuture):
+    def __init__(self, workers=1, name="pool", future_class=SimFuture, retain=True):
         s = S()
         self.name = name
         self.queue = []
@@ -183,6 +183,7 @@ class SimPool(Executor):
         self.workers = []
         self.idle = 0
         self.future_class = future_class
+        self.retain = retain
         self.shutdown_calls = []
         self.submitted = []
         for i in range(workers):
@@ -199,7 +200,8 @@ class SimPool(Executor):
         s.ev("dsubmit", self.name, nm, getattr(fn, "name", getattr(fn, "__name__", "?")), vname(list(args)),
              vname(sorted(kwargs.items())) if kwargs else "")
         self.queue.append((f, fn, args, kwargs))
-        self.submitted.append((f, fn, args, kwargs))
+        if self.retain:
+            self.submitted.append((f, fn, args, kwargs))
         return f
 
     def _worker(self):
@@ -217,6 +219,7 @@ class SimPool(Executor):
             nm = s.name_of(f, "f")
             if not f.set_running_or_notify_cancel():
                 s.ev("dskip", nm)
+                f = fn = args = kwargs = None
                 continue
             s.ev("drun", nm)
             try:
@@ -233,6 +236,9 @@ class SimPool(Executor):
                 s.ev("dcomplete", nm, "ok:" + vname(r))
                 f.set_result(r)
                 s.ev("dcompleted", nm)
+                r = None
+            # like ThreadPoolExecutor's worker (`del work_item`): keep nothing of a finished job alive
+            f = fn = args = kwargs = None
             del f, fn, args, kwargs
 
     def shutdown(self, wait=True, **kwargs):
